@@ -12,15 +12,15 @@ import (
 
 // EmitPlan describes what one `pxcheck emit` command writes; the harness recomputes the expected streams from it
 type EmitPlan struct {
-	Seed    int64
-	Tag     string // job tag
-	Task    string
-	Cmd     int
-	Size    int  // payload bytes per stream (approximately; chunk headers are extra)
-	Lines   bool // line-structured text payload
-	NoNL    bool // do not end with a newline
-	ExitAt  int  // if > 0: exit with status 3 after that many chunks
-	SlowMs  int  // sleep between chunks (for cancel tests)
+	Seed     int64
+	Tag      string // job tag
+	Task     string
+	Cmd      int
+	Size     int  // payload bytes per stream (approximately; chunk headers are extra)
+	Lines    bool // line-structured text payload
+	NoNL     bool // do not end with a newline
+	ExitAt   int  // if > 0: exit with status 3 after that many chunks
+	SlowMs   int  // sleep between chunks (for cancel tests)
 	MaxChunk int
 }
 
